@@ -4,8 +4,12 @@ package main
 
 import (
 	"go/ast"
+	"go/parser"
 	"go/token"
+	"os"
 	"reflect"
+
+	"golang.org/x/tools/go/ast/astutil"
 	"sort"
 	"strconv"
 	"strings"
@@ -210,4 +214,25 @@ func canonFile(f *ast.File) string {
 	d := &dumper{canon: true, strip: true}
 	d.val(reflect.ValueOf(f))
 	return `(pkg "` + esc(f.Name.Name) + `") ` + dumpImports(f.Imports, true) + " (tree " + d.sb.String() + ")"
+}
+
+// canonOfFile parses a Go file and prints its canonical tree with redundant
+// parentheses removed (go/printer adds them where precedence requires).
+func canonOfFile(path string) string {
+	bs, err := os.ReadFile(path)
+	if err != nil {
+		return "ERR read"
+	}
+	fset := token.NewFileSet()
+	f, err := parser.ParseFile(fset, path, bs, parser.SkipObjectResolution)
+	if err != nil {
+		return "ERR parse"
+	}
+	astutil.Apply(f, nil, func(c *astutil.Cursor) bool {
+		if p, ok := c.Node().(*ast.ParenExpr); ok {
+			c.Replace(p.X)
+		}
+		return true
+	})
+	return canonFile(f)
 }
